@@ -24,4 +24,11 @@ int h_thread_step(void *h);
 int h_thread_state(void *h);
 long h_thread_timeout(void *h);
 void h_threads_reset(void);
+int h_thread_create_nowait(void *(*fn)(void *), void *arg, void **handle);
+void h_mark_blocked(void);
+void h_mark_running(void);
+void h_park_self(void);
+long h_recv_calls(void);
+int h_thread_wait_parked_or_blocked(void *h, long calls_before, int timeout_ms);
+int h_thread_release_until_blocked(void *h);
 #endif
